@@ -194,6 +194,8 @@ func TestC14(t *testing.T) {
 							o.P2HErr = err.Error()
 						case "big":
 							o.BigErr = err.Error()
+						case "bigbrokered":
+							o.BigBrokeredErr = err.Error()
 						}
 					}
 				})
@@ -275,6 +277,37 @@ func TestC14(t *testing.T) {
 				return err
 			}) {
 				return
+			}
+			if g, isGRPC := cli.(*vp.GRPCCli); isGRPC {
+				const bigN = 5 << 20
+				if !step("bigbrokered", func() error {
+					// a 5 MiB response on a brokered connection, in both directions
+					if _, err := cli.Do("grpc-accept", "id", 9003, "nonce", fmt.Sprint("big:", bigN)); err != nil {
+						return err
+					}
+					r := vp.GRPCDialPing(g.Broker, 9003, 30*time.Second, true)
+					if r.DialErr != "" || r.PingErr != "" {
+						return fmt.Errorf("host dials, plugin answers %d bytes: %s%s", bigN, r.DialErr, r.PingErr)
+					}
+					if len(r.Msg) < bigN {
+						return fmt.Errorf("host dials: answer of %d bytes, want more than %d", len(r.Msg), bigN)
+					}
+					h := vp.GRPCAcceptServe(g.Broker, 9004, fmt.Sprint("big:", bigN))
+					defer h.Stop()
+					m, err := cli.Do("grpc-dial", "id", 9004, "timeoutMs", 30000, "lenOnly", true)
+					if err != nil {
+						return err
+					}
+					if s := vp.Str(m, "dialErr") + vp.Str(m, "pingErr"); s != "" {
+						return fmt.Errorf("plugin dials, host answers %d bytes: %s", bigN, s)
+					}
+					if vp.Int(m, "msgLen") < bigN {
+						return fmt.Errorf("plugin dials: answer of %d bytes", vp.Int(m, "msgLen"))
+					}
+					return nil
+				}) {
+					return
+				}
 			}
 			raw, err := cp.Dispense("no-such-plugin")
 			o.UnknownErr = errStr(err)
